@@ -467,7 +467,10 @@ theorem tstep_ref (ts ts' : TState) (g : TSeg) (hh : tstep ts g = .ok ts') : ste
   unfold tstep at hh
   unfold step
   split at hh
-  · cases hh; rename_i e; rw [e]; rfl
+  · rename_i e; rw [e]
+    split at hh
+    · cases hh; rfl
+    · cases hh
   · rename_i e; rw [e]; exact tExecArrive_ref _ _ _ _ _ _ _ _ _ _ _ _ _ hh
   · rename_i e; rw [e]; exact tWaitArrive_ref _ _ _ _ _ _ _ hh
   · rename_i e; rw [e]; exact tStreamWake_ref _ _ _ _ _ _ _ hh
